@@ -244,6 +244,9 @@ func (g *G) ofType(typ byte, cfg *Cfg) *ref.AP {
 		n := g.Len()
 		if !cfg.NoHuge && t.Bool(1, hugeOdds(cfg.Thorough)) {
 			n = 2097152 - 40 + t.Int(200) // around the 3/4-byte remaining length boundary
+			if t.Bool(1, 3) {
+				n = 4<<20 + t.Int(1<<20) // well inside the 4-byte form
+			}
 		}
 		a.Payload = g.Bin(n)
 	case ref.PubAck, ref.PubRec, ref.PubRel, ref.PubComp:
